@@ -121,7 +121,7 @@ func init() {
 	Register("C36", &Info{
 		Run:   runC36,
 		Race:  true,
-		Quick: 12000, Thor: 400000,
+		Quick: 12000, Thor: 1500000,
 		Rule: "a world = capacity 1-3, 1-4 tasks, <=5 ops per task over <=4 keys with unique values (a fifth of the Puts store an already used *ClientSessionState again); schedule chosen at every mutex acquisition; non-trivial = >=2 operations of different tasks overlapped (one invoked before the other returned) or a multi-op single-task history reaching eviction; distinct = (capacity, op-sequence per task, schedule hash)",
 		Assumptions: []string{
 			"races need two tasks touching the cache in the same world; weak-memory effects and intra-call parallelism are outside the simulator (DESIGN 2.7)",
